@@ -1,6 +1,8 @@
 package checks
 
 import (
+	"time"
+	"sync/atomic"
 	"encoding/json"
 	"bytes"
 	"fmt"
@@ -130,14 +132,40 @@ func checkLookups(byOccur func(tlv.TlvTag, int) tlv.TlvNode, real []tlv.TlvNode,
 	return ""
 }
 
+// tlvHang is set when a decode did not return within tlvTimeout: the first one is reported as a violation
+// (C16: "refused", i.e. bounded), later calls return at once so that the check itself terminates.
+var tlvHang atomic.Pointer[string]
+
+const tlvTimeout = 20 * time.Second
+
 func safeDecode(in []byte) (nodes *tlv.TlvNodes, err error, panicked any) {
-	defer func() {
-		if r := recover(); r != nil {
-			panicked = r
-		}
+	if tlvHang.Load() != nil {
+		return nil, fmt.Errorf("skipped: an earlier decode did not terminate"), nil
+	}
+	type res struct {
+		nodes *tlv.TlvNodes
+		err   error
+		pan   any
+	}
+	ch := make(chan res, 1)
+	go func() {
+		var r res
+		defer func() {
+			if p := recover(); p != nil {
+				r.pan = p
+			}
+			ch <- r
+		}()
+		r.nodes, r.err = tlv.Decode(in)
 	}()
-	nodes, err = tlv.Decode(in)
-	return
+	select {
+	case r := <-ch:
+		return r.nodes, r.err, r.pan
+	case <-time.After(tlvTimeout):
+		msg := fmt.Sprintf("tlv.Decode(%x) did not return within %s", in[:min(len(in), 64)], tlvTimeout)
+		tlvHang.CompareAndSwap(nil, &msg)
+		return nil, fmt.Errorf("timeout"), nil
+	}
 }
 
 func safeUnwrap(in []byte) (tag tlv.TlvTag, val []byte, err error, panicked any) {
@@ -196,6 +224,9 @@ func C16(c *core.Ctx) {
 		rw := rows[i]
 		in := rw.in
 		nodes, err, pan := safeDecode(bytes.Clone(in))
+		if tlvHang.Load() != nil {
+			return // reported once, at the end
+		}
 		rp := map[string]any{"input": core.Hex(in)}
 		if pan != nil {
 			err = fmt.Errorf("panic: %v", pan) // C12's subject; for C16 it is "not accepted"
@@ -282,6 +313,10 @@ func C16(c *core.Ctx) {
 		rnd := rand.New(rand.NewSource(seeds[i]))
 		in := genTlv(rnd, maxBytes)
 		nodes, err, pan := safeDecode(bytes.Clone(in))
+		if tlvHang.Load() != nil {
+			recs[i] = rec{in, core.JSONLine(map[string]any{"k": "d", "in": ints(in), "ok": false, "tree": []any{}, "canon": []int{}}), false}
+			return
+		}
 		l := map[string]any{"k": "d", "in": ints(in), "ok": err == nil && pan == nil, "tree": []any{}, "canon": []int{}}
 		if err == nil && pan == nil {
 			l["tree"] = realTreeJSON(nodes.Nodes())
@@ -297,6 +332,9 @@ func C16(c *core.Ctx) {
 			}
 		}
 	})
+	// "all input bytes are accounted for": a declared length beyond the octets present, for EVERY number of octets present
+	// up to a few KiB (primitive, and constructed with complete children) - BER assigns no tree, whatever block sizes a reader uses
+	c16Truncated(c)
 	// limit lines: nesting 48..53 and element counts 9998..10002, definite and indefinite
 	type lim struct {
 		depth, nodes int
@@ -351,6 +389,9 @@ func C16(c *core.Ctx) {
 		}
 		c.Violation(key, fmt.Sprintf("recorded tlv.Decode(%x) line rejected by Trace_Tlv (real accepted=%v)", rc.in, rc.ok), map[string]any{"input": core.Hex(rc.in), "line": string(rc.line)})
 	}
+	if h := tlvHang.Load(); h != nil {
+		c.Violation("C16:decode-does-not-terminate", *h, nil)
+	}
 	c.Sample(map[string]any{"grammar_input": core.Hex(recs[0].in), "real_accepted": recs[0].ok})
 	c.Sample(map[string]any{"grammar_input": core.Hex(recs[1].in), "real_accepted": recs[1].ok})
 }
@@ -372,6 +413,70 @@ func roundTripLaw(nodes *tlv.TlvNodes) string {
 		return fmt.Sprintf("but its re-encoding %x is not a fixed point (%x)", enc, enc2)
 	}
 	return ""
+}
+
+func c16Truncated(c *core.Ctx) {
+	maxAvail := core.Pick(c, 4200, 9000)
+	bad := make([]string, maxAvail+1)
+	core.ParallelFor(maxAvail+1, func(avail int) {
+		body := make([]byte, avail)
+		for i := range body {
+			body[i] = byte(0x41 + i%23)
+		}
+		// children for the constructed form: complete OCTET STRINGs of up to 200 octets filling `avail` exactly
+		var kids []byte
+		for rest := avail; rest > 0; {
+			n := rest - 2
+			if n > 200 {
+				n = 200
+			}
+			if n < 0 { // one octet left: cannot be a TLV; use the primitive form only
+				kids = nil
+				break
+			}
+			if n >= 128 {
+				n = min(rest-3, 200)
+				kids = append(append(kids, 0x04, 0x81, byte(n)), body[:n]...)
+				rest -= n + 3
+			} else {
+				kids = append(append(kids, 0x04, byte(n)), body[:n]...)
+				rest -= n + 2
+			}
+		}
+		for _, extra := range []int{1, 1024, 70} {
+			decl := avail + extra
+			if decl > 65535 {
+				continue
+			}
+			for _, form := range []struct {
+				tag  byte
+				cont []byte
+			}{{0x04, body}, {0x30, kids}} {
+				if form.tag == 0x30 && (kids == nil || len(kids) != avail) {
+					continue
+				}
+				in := append([]byte{form.tag, 0x82, byte(decl >> 8), byte(decl)}, form.cont...)
+				if nodes, err, pan := safeDecode(bytes.Clone(in)); err == nil && pan == nil {
+					bad[avail] = fmt.Sprintf("tlv.Decode accepted %02X 82 %04X followed by only %d content octets (re-encodes to %d octets)", form.tag, decl, avail, len(nodes.Encode()))
+				}
+				if form.tag == 0x04 {
+					if _, _, err, pan := safeUnwrap(bytes.Clone(in)); err == nil && pan == nil {
+						bad[avail] = fmt.Sprintf("tlv.Unwrap accepted 04 82 %04X followed by only %d content octets", decl, avail)
+					}
+				}
+			}
+		}
+	})
+	n := 0
+	for avail, b := range bad {
+		c.Case(fmt.Sprintf("truncated/%d", avail), true)
+		n++
+		if b != "" {
+			c.Violation("C16:accepts-truncated-element", b, map[string]any{"octets_present": avail})
+			return
+		}
+	}
+	c.Extra["truncation_sweep_octets_present"] = n
 }
 
 // ownTreeLaw: the tree is a VALUE - "the value bytes BER assigns to that input" stay what they were when the caller
